@@ -18,11 +18,11 @@ func init() {
 }
 
 type c08Case struct {
-	Race    *gen.Race `json:"race"`
-	Pre     string    `json:"pre"`
-	Post    string    `json:"post"`
-	Unknown int       `json:"unknown_gid,omitempty"` // id of the section that matches no operation
-	Chunk   int       `json:"chunk"`
+	Race    *gen.Race  `json:"race"`
+	Pre     gen.BinStr `json:"pre"`
+	Post    gen.BinStr `json:"post"`
+	Unknown int        `json:"unknown_gid,omitempty"` // id of the section that matches no operation
+	Chunk   int        `json:"chunk"`
 }
 
 func c08Eval(r *core.Run, c *c08Case) {
@@ -75,7 +75,7 @@ func c08Eval(r *core.Run, c *c08Case) {
 		return
 	}
 	if !bytes.Equal(res.Prefix, []byte(c.Pre)) {
-		report("prefix", fmt.Sprintf("forwarded %q want %q", b2s(res.Prefix, 200), core.Trunc(c.Pre, 200)))
+		report("prefix", fmt.Sprintf("forwarded %q want %q", b2s(res.Prefix, 200), core.Trunc(string(c.Pre), 200)))
 		return
 	}
 	rest := append(append([]byte{}, res.Suffix...), res.Rest...)
@@ -84,7 +84,7 @@ func c08Eval(r *core.Run, c *c08Case) {
 		if len(rest) < len(c.Post) && bytes.HasSuffix([]byte(c.Post), rest) {
 			key = "text-after-closing-separator-lost"
 		}
-		report(key, fmt.Sprintf("closing separator must end the report: remainder is %d bytes %q, the text after the separator is %d bytes %q", len(rest), b2s(rest, 120), len(c.Post), core.Trunc(c.Post, 120)))
+		report(key, fmt.Sprintf("closing separator must end the report: remainder is %d bytes %q, the text after the separator is %d bytes %q", len(rest), b2s(rest, 120), len(c.Post), core.Trunc(string(c.Post), 120)))
 	}
 }
 
@@ -119,17 +119,17 @@ func runC08(r *core.Run) {
 			}
 		}
 		if rr.Chance(2, 3) {
-			c.Pre = gen.Junk(rr, &gen.JunkCfg{Binary: true}, rr.Intn(4), eol)
+			c.Pre = gen.BinStr(gen.Junk(rr, &gen.JunkCfg{Binary: true}, rr.Intn(4), eol))
 		}
 		if !c.Race.NoFinalEOL {
 			switch rr.Intn(4) {
 			case 0:
 			case 1:
-				c.Post = "Found 1 data race(s)" + eol + "exit status 66" + eol
+				c.Post = gen.BinStr("Found 1 data race(s)" + eol + "exit status 66" + eol)
 			case 2:
-				c.Post = gen.Junk(rr, &gen.JunkCfg{Long: true, Binary: true, Separators: true}, 1+rr.Intn(6), eol)
+				c.Post = gen.BinStr(gen.Junk(rr, &gen.JunkCfg{Long: true, Binary: true, Separators: true}, 1+rr.Intn(6), eol))
 			case 3:
-				c.Post = strings.Repeat("after the report ", 1200+rr.Intn(2000)) + eol + "tail"
+				c.Post = gen.BinStr(strings.Repeat("after the report ", 1200+rr.Intn(2000)) + eol + "tail")
 			}
 		}
 		switch i % 7 {
@@ -139,10 +139,10 @@ func runC08(r *core.Run) {
 			c.Chunk = 1 + rr.Intn(500)
 		}
 		c08Eval(r, c)
-		r.Distinct(core.HashStr(c.Pre + string(c.Race.Render()) + c.Post))
+		r.Distinct(core.HashStr(string(c.Pre) + string(c.Race.Render()) + string(c.Post)))
 		r.Mark("variants", fmt.Sprintf("ops=%d creates=%d unknown=%v post=%v args=%v", len(c.Race.Ops), len(c.Race.Creates), c.Unknown != 0, c.Post != "", c.Race.WithArgs))
 		if i < 2 {
-			r.Sample(map[string]any{"input": core.Trunc(c.Pre+string(c.Race.Render())+c.Post, 1500)})
+			r.Sample(map[string]any{"input": core.Trunc(string(c.Pre)+string(c.Race.Render())+string(c.Post), 1500)})
 		}
 	})
 }
